@@ -21,6 +21,7 @@ fn multi_file_layout(n: usize, rng: &mut Rng) -> Layout {
             number: k as u64,
             width: 5,
             segs: vec![],
+            symlink: false,
         })
         .collect();
     let mut order: Vec<usize> = (0..n).collect();
@@ -296,6 +297,7 @@ impl Prop for C10 {
                     at: ev.seq,
                     errno: 5,
                     after: None,
+                    once: false,
                 }]
             }))?;
         }
@@ -313,7 +315,13 @@ impl Prop for C10 {
                 limits.extend([sz.saturating_sub(1), *sz, sz + 1]);
             }
             // write boundaries of the baseline
-            let mut bounds: Vec<u64> = base.trace.iter().filter(|x| x.op == "write").filter_map(|x| x.num("size")).map(|x| x as u64).collect();
+            // write boundaries of the baseline — only where they are the same in every execution (csvdump);
+            // unspent/balances rows come in hash order, there random limits stand in for them
+            let mut bounds: Vec<u64> = if cb != "csvdump" {
+                (0..40).map(|_| rng.below(maxsize + 1)).collect()
+            } else {
+                base.trace.iter().filter(|x| x.op == "write").filter_map(|x| x.num("size")).map(|x| x as u64).collect()
+            };
             bounds.sort();
             bounds.dedup();
             if bounds.len() > 40 {
@@ -361,7 +369,7 @@ impl Prop for C10 {
                 for (errno, after) in [(28, Some(0u64)), (28, Some(1)), (28, Some(1 << 40)), ([5, 32, 27, 122, 11, 9][(k % 6) as usize], None)] {
                     if mine() {
                         h.check(&mut mk("write-fail", &|r| {
-                            r.plan.failw = vec![PointFail { at: k, errno, after }]
+                            r.plan.failw = vec![PointFail { at: k, errno, after, once: false }]
                         }))?;
                     }
                 }
@@ -422,6 +430,7 @@ impl Prop for C10 {
                         at: w.seq,
                         errno: 28,
                         after: Some(k),
+                        once: false,
                     }]
                 }))?;
             }
@@ -433,6 +442,7 @@ impl Prop for C10 {
                     at: w.seq,
                     errno,
                     after: None,
+                    once: false,
                 }]
               }))?;
             }
@@ -475,12 +485,47 @@ impl Prop for C10 {
                     at: ev.seq,
                     errno: 13,
                     after: None,
+                    once: false,
                 }]
             }))?;
         }
         // (4) rename failures
         if hash_ordered && mine() {
             h.check(&mut mk("rename-fail", &|r| r.plan.failr = vec![(1, 13)]))?;
+        }
+        // a write that fails ONCE (the condition has cleared by the next attempt): still "a write failed"
+        {
+            // number of write calls: from the trace for csvdump (same in every execution), from the model for
+            // the hash-ordered callbacks (rows + header + slack)
+            let n_writes = if hash_ordered {
+                let m = Model::new(&world);
+                (if cb == "balances" { m.balance_rows(s, e).0.len() } else { m.unspent_rows(s, e).0.len() }) as u64 + 2
+            } else {
+                base.trace.iter().filter(|x| x.op == "write").count() as u64
+            };
+            for k in 1..=n_writes.min(40) {
+                if mine() {
+                    let errno = [28, 11, 122, 5][(k % 4) as usize];
+                    h.check(&mut mk("write-fail", &|r| {
+                        r.plan.failw = vec![PointFail {
+                            at: k,
+                            errno,
+                            after: None,
+                            once: true,
+                        }]
+                    }))?;
+                }
+            }
+        }
+        // the tmp file is gone when it is to be renamed (cleaned up by someone else), with and without
+        // an earlier result of the same final name in the folder
+        {
+            let n_ren = if hash_ordered { 1 } else { 4 };
+            for j in 1..=n_ren {
+                if mine() {
+                    h.check(&mut mk("rename-fail", &|r| r.plan.vanishr = Some(j)))?;
+                }
+            }
         }
         for ev in base.trace.iter().filter(|x| x.op == "rename" && !hash_ordered) {
             if !mine() {
@@ -491,6 +536,7 @@ impl Prop for C10 {
                     at: ev.seq,
                     errno: 13,
                     after: None,
+                    once: false,
                 }]
             }))?;
         }
